@@ -47,11 +47,12 @@ def main(argv):
         SEAMS.err.renew()
         mo = SEAMS.out.mark()
         rec = {"i": ei, "kind": entry["kind"], "item": entry.get("item")}
+        if entry["kind"] == "main" and spec["items"][entry["item"]].get("stdin") is not None:
+            # set-up of the simulated environment happens OUTSIDE the try: a failure here is the harness', not an outcome
+            sys.stdin = _Stdin(spec["items"][entry["item"]]["stdin"].encode("utf-8"))
         try:
             if entry["kind"] == "main":
                 item = spec["items"][entry["item"]]
-                if item.get("stdin") is not None:
-                    sys.stdin = _Stdin(item["stdin"].encode("utf-8"))   # `-` on the command line: spooled to a temp file
                 rc, extra_err, exc = run_command(["graphtage"] + item["argv"], embedded=True)
                 if exc is not None:
                     raise exc
@@ -88,11 +89,12 @@ def _Stdin(data):
     """A real standard input for this child: descriptor 0 is pointed at a private in-memory file holding `data`, and
     sys.stdin is an ordinary text wrapper over it (readable, iterable, .buffer, a true fileno())."""
     import io
-    fd = os.memfd_create("gsim-stdin")
+    fd = os.memfd_create("gsim-stdin")      # (is 0 itself if an earlier command closed descriptor 0)
     os.write(fd, data)
     os.lseek(fd, 0, os.SEEK_SET)
-    os.dup2(fd, 0)
-    os.close(fd)
+    if fd != 0:
+        os.dup2(fd, 0)
+        os.close(fd)
     return io.TextIOWrapper(io.BufferedReader(io.FileIO(0, closefd=False)), encoding="utf-8")
 
 
